@@ -13,6 +13,17 @@ REQUEST_KIND = {"Call": "_call_reqs", "Publish": "_publish_reqs", "Subscribe": "
 ALL_TABLES = sorted(set(REPLY_TABLE.values()))
 
 
+def _is_enc_error(v):
+    return isinstance(v, ast.Call) and norm.text(v.func) == "ApplicationError" and v.args and (norm.text(v.args[0]) or "").startswith("ApplicationError.ENC_")
+
+
+ONMESSAGE_ROLES = [
+    ("enc_err", "def", _is_enc_error),                                                  # the payload-decryption failure
+    ("endpoint", "def", lambda v: isinstance(v, ast.Attribute) and v.attr == "endpoint"),      # the registered endpoint of an INVOCATION
+    ("registration", "def", lambda v: (norm.text(v) or "").replace(" ", "") in ("self._registrations[msg.registration]", "self._registrations.get(msg.registration)")),
+]
+
+
 class OnMessage:
     def __init__(self, ctx):
         self.ctx = ctx
@@ -23,6 +34,9 @@ class OnMessage:
         # test was extracted into such a helper does not change what the branches do
         from .common import expand_expr_helpers
         self.fn = expand_expr_helpers(ctx, self.fn)
+        # a few locals of this long method are read by name: they are identified by what they are computed from and renamed back first (common.recover_names)
+        from .common import recover_names
+        self.fn = recover_names(ctx, self.fn, ONMESSAGE_ROLES)
         self.g, self.mf, self.res = self.an.get(self.fn)
         self._closure_arm = {}
 
